@@ -30,6 +30,13 @@ def configs():
     return _CONFIGS
 
 
+def reset_configs():
+    """fresh rule objects: the explorers call this at the start of every seed so that whatever state a
+    rule object keeps between calls depends only on the recorded history of that seed"""
+    global _CONFIGS
+    _CONFIGS = None
+
+
 def config(name):
     for n, r in configs():
         if n == name:
@@ -83,14 +90,37 @@ def get_root(node, limit=10000):
     return node
 
 
-def run_trace(text, trace):
-    """Replay start text + [(config, index), ...]; returns list of roots (states)."""
+def scan(root):
+    """ask every configuration about every node, as the explorers do before choosing a transition"""
+    nodes = inorder(root)
+    for _, rule in configs():
+        for n in nodes:
+            try:
+                rule.can_apply_to(n)
+            except Exception:  # noqa
+                pass
+
+
+def run_trace(text, trace, inplace=False, scan_states=True):
+    """Replay start text + [(config, index), ...] with fresh rule objects; returns list of roots (states).
+    Every visited state is scanned (can_apply_to on all nodes under all configurations) exactly as during
+    exploration, so state kept inside rule objects is reproduced.  inplace: apply to the live tree instead
+    of a clone (in that mode only the last root is meaningful)."""
+    reset_configs()
     root = parse(text)
     out = [root]
     for cname, index in trace:
-        res, _ = step(root, config(cname), index)
+        if scan_states:
+            scan(root)
+        if inplace:
+            node = inorder(root)[index]
+            res = config(cname).apply_to(node).result
+        else:
+            res, _ = step(root, config(cname), index)
         root = get_root(res)
         out.append(root)
+    if scan_states:
+        scan(root)
     return out
 
 
